@@ -43,6 +43,7 @@ class MProg:
     arg_tuples: list = field(default_factory=list)
     tags: set = field(default_factory=set)
     spec_consts: bool = False    # prologue also reads spec constants (cf, ci, c0) used as gate angles
+    param_devs: tuple = ()       # device-function variables that are kernel parameters annotated schedule.DeviceFunction
 
 
 NATIVE_MARKERS = [False]      # render(..., native_markers=True) marks early returns for the native evaluator
@@ -117,6 +118,8 @@ def prologue(prog, out):
         out.append("    c0 = spec.get_float_constant(constant_id=\"origin\")")
         out.append("    cz = spec.get_int_constant(constant_id=\"zero\")")
     for var, kern, rev in prog.devs:
+        if var in getattr(prog, "param_devs", ()):
+            continue            # a device function received as a kernel parameter
         xt, yt = TONES[kern]
         e = f"schedule.device_fn({kern}, {xt}, {yt})"
         out.append(f"    {var} = " + (f"schedule.reverse({e})" if rev else e))
@@ -151,13 +154,16 @@ def _render(prog, decorator, main, sub_decorator):
 # ---------------- generation ----------------
 class MG:
     def __init__(self, rng, *, blocks=True, autos=True, control=True, gates=True, subs=False, depth=3, width=3, const_control=True,
-                 spec_consts=False):
+                 spec_consts=False, param_dev=False):
         self.rng = rng
+        self.param_dev = param_dev
         self.o = dict(blocks=blocks, autos=autos, control=control, gates=gates, subs=subs, depth=depth, width=width, const_control=const_control,
                       spec_consts=spec_consts)
         self.ncall = 0
         self.tags = set()
         self.devs = [("f0", "k0", False), ("r0", "k0", True), ("f1", "k1", False), ("f2", "k2", False)]
+        if param_dev:
+            self.devs.append(("pf", "k0", False))
         self.loopvars = []
 
     def call(self, in_auto=False):
@@ -250,6 +256,18 @@ class MG:
                 self.tags.add("sub-call")
             elif r < 0.30:
                 out.append(self.call())
+                if rng.random() < 0.2:
+                    # the same device function called again with the same VALUES bound to the other parameters by keyword
+                    _, callee, pos, kws = out[-1]
+                    vals = list(pos) + [v for _, v in kws]
+                    kern = next((k for v, k, _ in self.devs if v == callee), None)
+                    if kern is not None and len(vals) >= 2 and vals[0] != vals[1]:
+                        names = TWEEZERS[kern][2]
+                        first = [(names[0], vals[0]), (names[1], vals[1])] + list(zip(names[2:], vals[2:]))
+                        twin = [(names[1], vals[0]), (names[0], vals[1])] + list(zip(names[2:], vals[2:]))
+                        out[-1] = ("call", callee, [], first)
+                        out.append(("call", callee, [], twin))
+                        self.tags.add("same-values-other-keywords")
             elif r < 0.55 and self.o["blocks"]:
                 out.append(self.block(1))
                 if rng.random() < 0.2:
@@ -328,7 +346,10 @@ def gen_move_prog(rng, **opts):
         for p, ann in params:
             a.append(rng.choice([0, 1, 2, 3]) if ann == "int" else (rng.random() < 0.5))
         args.append(tuple(a))
-    return MProg(params=params, devs=g.devs, body=body, subs=subs, arg_tuples=args, tags=g.tags, spec_consts=g.o["spec_consts"])
+    if g.param_dev:
+        params.append(("pf", "schedule.DeviceFunction"))
+    return MProg(params=params, devs=g.devs, body=body, subs=subs, arg_tuples=args, tags=g.tags, spec_consts=g.o["spec_consts"],
+                 param_devs=("pf",) if g.param_dev else ())
 
 
 def all_block_shapes(max_depth, max_width, max_calls):
